@@ -99,8 +99,18 @@ class Vocab(object):
     def symbol(self, Z):
         return self.els[Z]["symbol"]
 
-    def formula(self, rng, xray_ok=False, natural_only=False):
-        """A seeded formula string using isotopes and ions."""
+    def formula(self, rng, xray_ok=False, natural_only=False, pool=None):
+        """A seeded formula string using isotopes and ions.  With a per-run *pool*, earlier
+        strings are reused more often than not: state kept by the computed layer (a memo keyed
+        too coarsely) only shows when the same compound comes back with other arguments."""
+        if pool is not None and pool and rng.random() < 0.6:
+            return rng.choice(pool)
+        s = self._formula(rng, xray_ok, natural_only)
+        if pool is not None and len(pool) < 4:
+            pool.append(s)
+        return s
+
+    def _formula(self, rng, xray_ok=False, natural_only=False):
         n = rng.choice([1, 1, 2, 2, 3])
         parts = []
         # half of the formulas draw from a small pool of "hot" elements so that calculator calls
@@ -133,20 +143,24 @@ def gen_read(rng, V, tbl="public", name=None, route=None, means=None):
     return ["read", tbl, V.atom(rng, route), name, means or rng.choice(MEANS)]
 
 
-def gen_calc(rng, V, tbl="public", which=None):
+D2O_COMPOUNDS = ["C3H4H[1]NO@1.29n", "C6H10O5@1.5n", "C2H5OH[1]@0.789n", "Gd(NO3)3(H[1]2O)6@2.33",
+                 "Sm2O3(H[1]2O)2@3.1", "ErCl3@4.1", "Yb[168]2O3@9.2n", "Lu2O3@9.4"]
+
+
+def gen_calc(rng, V, tbl="public", which=None, pool=None):
     which = which or rng.choice(
         ["nscat", "nsld", "xsld", "volume", "activation", "d2o_match", "fasta_const",
          "emission_table", "xsld_table", "nsld_table", "nsf_tables", "list", "mff", "f0", "mass",
          "refraction", "composite", "d2o_sld", "fasta_seq", "formula_methods", "show_table"])
     if which in ("nscat", "nsld"):
-        ev = ["calc", tbl, which, V.formula(rng), rng.choice([1.0, 2.5, 7.9]),
+        ev = ["calc", tbl, which, V.formula(rng, pool=pool), rng.choice([1.0, 2.5, 7.9]),
               rng.choice([0.5, 1.798, 4.75, 6.0])]
-        opts = {k: True for k in ("energy", "natural", "vector") if rng.random() < 0.2}
+        opts = {k: True for k in ("energy", "natural", "vector", "str") if rng.random() < 0.2}
         return ev + ([opts] if opts else [])
     if which == "xsld":
-        ev = ["calc", tbl, which, V.formula(rng, xray_ok=True), rng.choice([1.0, 5.24]),
+        ev = ["calc", tbl, which, V.formula(rng, xray_ok=True, pool=pool), rng.choice([1.0, 5.24]),
               rng.choice([8.04, 17.44, 1.0])]
-        opts = {k: True for k in ("wavelength", "natural") if rng.random() < 0.2}
+        opts = {k: True for k in ("wavelength", "natural", "str") if rng.random() < 0.2}
         return ev + ([opts] if opts else [])
     if which == "volume":
         ev = ["calc", tbl, which, V.formula(rng)]
@@ -160,22 +174,31 @@ def gen_calc(rng, V, tbl="public", which=None):
                 rng.choice([1e5, 1e8]), rng.choice([1.0, 10.0]), rng.choice([[0, 1, 24, 360], [0], [2, 0.5]]),
                 rng.choice(["nist", "iaea"])] + ([{"cd": rng.choice([0, 70]), "fast": rng.choice([0, 50])}]
                                                  if rng.random() < 0.3 else [])
-    if which == "d2o_match":
-        return ["calc", tbl, which, rng.choice(["C3H4H[1]NO@1.29n", "C6H10O5@1.5n", "C2H5OH[1]@0.789n"])]
+    if which in ("d2o_match", "d2o_sld"):
+        ev = ["calc", tbl, which, rng.choice(D2O_COMPOUNDS)]
+        opts = {}
+        r = rng.random()
+        if r < 0.3:
+            opts["wavelength"] = rng.choice([0.5, 1.0, 4.75])
+        elif r < 0.45:
+            opts["energy"] = rng.choice([25.0, 300.0])
+        if rng.random() < 0.5:
+            opts["str"] = True
+        return ev + ([opts] if opts else [])
     if which == "nsf_tables":
         return ["calc", tbl, which, rng.choice(NSF_TABLES)]
     if which == "refraction":
-        return ["calc", tbl, which, V.formula(rng, xray_ok=True), rng.choice([1.0, 5.24]), rng.choice([8.04, 17.44])]
+        return ["calc", tbl, which, V.formula(rng, xray_ok=True, pool=pool), rng.choice([1.0, 5.24]),
+                rng.choice([8.04, 17.44])]
     if which == "composite":
-        return ["calc", tbl, which, V.formula(rng), V.formula(rng), rng.choice([4.75, [0.5, 1.0, 4.0]])]
-    if which == "d2o_sld":
-        return ["calc", tbl, which, rng.choice(["C3H4H[1]NO@1.29n", "C6H10O5@1.5n", "C2H5OH[1]@0.789n"])]
+        return ["calc", tbl, which, V.formula(rng, pool=pool), V.formula(rng, pool=pool),
+                rng.choice([4.75, [0.5, 1.0, 4.0]])]
     if which == "fasta_seq":
         kind = rng.choice(["aa", "dna", "rna"])
         alphabet = {"aa": "ACDEFGHIKLMNPQRSTVWY", "dna": "ACGT", "rna": "ACGU"}[kind]
         return ["calc", tbl, which, kind, "".join(rng.choice(alphabet) for _ in range(rng.choice([1, 3, 8])))]
     if which == "formula_methods":
-        return ["calc", tbl, which, V.formula(rng, xray_ok=True), rng.choice([1.0, 3.7])]
+        return ["calc", tbl, which, V.formula(rng, xray_ok=True, pool=pool), rng.choice([1.0, 3.7])]
     if which == "show_table":
         return ["calc", tbl, which, V.formula(rng, natural_only=True), rng.choice([1.0, 2.0]),
                 rng.choice(["nist", "iaea"])]
@@ -195,13 +218,51 @@ def gen_calc(rng, V, tbl="public", which=None):
     return ["calc", tbl, which]
 
 
-def gen_c09_event(rng, V, cfg):
+# calculators that share internal helpers: a burst revisits one compound through one family with
+# different secondary arguments (the way a contrast series or an energy scan is really computed)
+CALC_FAMILIES = [["d2o_match", "d2o_sld"], ["nscat", "nsld", "composite", "formula_methods"],
+                 ["xsld", "refraction"], ["activation", "show_table"], ["volume"], ["mass"]]
+
+
+def gen_burst(rng, V, tbl="public", pool=None, n=None):
+    fam = rng.choice(CALC_FAMILIES)
+    first = gen_calc(rng, V, tbl, rng.choice(fam), pool)
+    out = [first]
+    for _ in range(n or rng.choice([1, 2])):
+        e = gen_calc(rng, V, tbl, rng.choice(fam), pool)
+        e[3] = first[3]              # same compound, other arguments
+        out.append(e)
+    return out
+
+
+def c09_burst_strata():
+    """Same compound, different secondary argument, once per calculator family."""
+    gd = "Gd(NO3)3(H[1]2O)6@2.33"
+    return [
+        [["calc", "public", "d2o_match", gd, {"str": True}],
+         ["calc", "public", "d2o_sld", gd, {"str": True, "wavelength": 0.5}]],
+        [["calc", "public", "d2o_sld", gd, {"wavelength": 4.75}], ["calc", "public", "d2o_match", gd, {"energy": 300.0}]],
+        [["calc", "public", "nscat", "Gd2O3", 7.4, 1.798, {"str": True}],
+         ["calc", "public", "nscat", "Gd2O3", 7.4, 0.5, {"str": True}],
+         ["calc", "public", "nsld", "Gd2O3", 2.5, 0.5, {"str": True, "natural": True}]],
+        [["calc", "public", "xsld", "Fe2O3", 5.24, 8.04, {"str": True}],
+         ["calc", "public", "xsld", "Fe2O3", 5.24, 17.44, {"str": True}],
+         ["calc", "public", "refraction", "Fe2O3", 1.0, 8.04]],
+        [["calc", "public", "activation", "Co30Fe70", 10.0, 1e8, 10.0, [0, 1, 24], "iaea"],
+         ["calc", "public", "activation", "Co30Fe70", 10.0, 1e8, 10.0, [0, 1, 24], "nist"],
+         ["calc", "public", "show_table", "Co30Fe70", 1.0, "iaea"]],
+        [["calc", "public", "volume", "Fe2O3", {"packing": "bcc"}], ["calc", "public", "volume", "Fe2O3"],
+         ["calc", "public", "formula_methods", "Fe2O3", 3.7], ["calc", "public", "formula_methods", "Fe2O3", 1.0]],
+    ]
+
+
+def gen_c09_event(rng, V, cfg, pool=None):
     fams = cfg["families"]
     fam = rng.choice(fams)
     if fam == "reader":
         return gen_read(rng, V)
     if fam == "calculator":
-        return gen_calc(rng, V)
+        return gen_calc(rng, V, pool=pool)
     if fam == "importer":
         return ["import", rng.choice(IMPORTS)]
     if fam == "init":
